@@ -115,6 +115,17 @@ func (_this *Session) GetIteratorForType(t reflect.Type) IteratorFunction {
 		return storedIterator.(IteratorFunction)
 	}
 
+	defer func() {
+		if r := recover(); r != nil {
+			// Generation failed (unsupported type): don't leave the placeholder
+			// behind, or everyone who picked it up would wait forever.
+			iterator = func(*Context, reflect.Value) { panic(r) }
+			_this.iteratorFuncs.Delete(t)
+			wg.Done()
+			panic(r)
+		}
+	}()
+
 	verifhook.Point("iterator.cache.miss")
 	iterator = _this.getDefaultIteratorForType(t)
 	verifhook.Point("iterator.cache.generated")
